@@ -179,3 +179,16 @@ Proof.
   intros Hc. pose proof (prun_ok os (p0 n) (files_ok_p0 n)) as Hok. apply all_empty_spec. intros l x Hl Hx.
   destruct (Hok l x Hl Hx) as [_ Hn]. contradiction.
 Qed.
+
+(* ---- listings (show series / tag values / tag keys) resolve the measurements of a policy through another catalogue walk than
+   selects do (finding C13-marked-policy-still-listed): [checks_mark] = that walk skips a marked object too (_repaired; today it does
+   for databases and measurements, not for retention policies) *)
+Definition plisted (checks_mark : bool) (s : pstate) : list N :=
+  match ps_cat s with
+  | Live => concat (ps_files s)
+  | Marked => if checks_mark then [] else concat (ps_files s)
+  | Absent => []
+  end.
+(* REPAIRED: every kind of read agrees at every point of every run *)
+Theorem listed_consistent s : plisted true s = pvisible s.
+Proof. unfold plisted, pvisible. destruct (ps_cat s); reflexivity. Qed.
